@@ -24,6 +24,7 @@ META = {
                      "RFC 8949 section 4.2.1 / RFC 7049 section 3.9 orderings as implemented by the oracle in this file"],
 }
 META["decides"] += ' (As built: all four comparison functions are decided the same way - acyclic paths with path-precise terms, evaluated on the boundary lattice against the oracle; R-3 is that comparison on (variant, value) samples, not a structural match.)'
+META["decides"] += ' R-2 also: PartialEq / Eq of the label types are the derived ones.'
 
 LABEL_CMP = "<common::Label as core::cmp::Ord>::cmp"
 ORD_CMP = "core::cmp::Ord::cmp"
